@@ -11,7 +11,9 @@ TRUSTED_BASE = [
 HOOK_COMMITS = ['95b4529 verif hooks: expose link tracker map sizes (build tag verif)',
                 'e1cc3da verif hooks: expose queued builder block sizes (build tag verif)',
                 'bfc4b1d verif hooks: count non-empty queued builders (build tag verif)']
-NOT_YET = {}
+NOT_YET = {
+    'C16': "the technique applies, but the history-level exactly-once theorem is not built: the message-queue model, its driver and an executable monitor exist and run inside C15's check as correspondence, which is not a proof of C16, so nothing is claimed for C16 (DESIGN.md 10)",
+}
 
 PROPS = {
     'C13': dict(
